@@ -61,6 +61,8 @@ class FakeSocket:
         self.remote = (addr[0], addr[1])
         self.local = (self.owner.host if self.owner else '0.0.0.0', self.net.ephemeral())
         if self._sync_refusal(addr):
+            # the socket is in an error state from now on: a selector reports it at once, recv / send raise
+            self.error = OSError(errno.ENETUNREACH, "Network is unreachable")
             return errno.ENETUNREACH
         self.net.dialling.append(self)
         return errno.EINPROGRESS
